@@ -804,11 +804,11 @@ pub enum ExtendedProtocolData {
     },
     Bind {
         data: BytesMut,
-        metadata: Option<String>,
+        metadata: Option<(Arc<Parse>, u64)>,
     },
     Describe {
         data: BytesMut,
-        metadata: Option<String>,
+        metadata: Option<(Arc<Parse>, u64)>,
     },
     Execute {
         data: BytesMut,
@@ -824,11 +824,11 @@ impl ExtendedProtocolData {
         Self::Parse { data, metadata }
     }
 
-    pub fn create_new_bind(data: BytesMut, metadata: Option<String>) -> Self {
+    pub fn create_new_bind(data: BytesMut, metadata: Option<(Arc<Parse>, u64)>) -> Self {
         Self::Bind { data, metadata }
     }
 
-    pub fn create_new_describe(data: BytesMut, metadata: Option<String>) -> Self {
+    pub fn create_new_describe(data: BytesMut, metadata: Option<(Arc<Parse>, u64)>) -> Self {
         Self::Describe { data, metadata }
     }
 
